@@ -437,6 +437,7 @@ def run_check(pid, tier, replay=None):
         for sc, vs in sorted(by_sc.items()):
             rp = C.write_replay(pid, sc, replay_obj(pid, sc, events, vs))
             violations.append(("%s in scenario %s at event %s" % (",".join(sorted({v["p"] for v in vs})), sc, min(v["seq"] for v in vs)), rp))
+        inductive = mc.apalache_inductive(scratch) if pid in ("C04", "C05") else None
         blank_ctx = None
         if pid == "C07":
             # "... and therefore Blank.SetSource": the Blank histories of Wrap.tla with the monitor gone, under a watchdog
@@ -473,7 +474,7 @@ def run_check(pid, tier, replay=None):
                     "; distinct = different (scenario, executed schedule) pairs",
             "model": {"config": mc.consts_for(pid, tier), "distinct_states": mcres.distinct, "generated_states": mcres.generated,
                       "depth": mcres.depth, "invariants": mc.INVARIANTS, "action_properties": mc.ACTION_PROPS, "wall_s": round(mcres.wall, 1)},
-            "toggle_selftest": selftest, "binding_selftest": binding, "blank_set_source_context": blank_ctx,
+            "toggle_selftest": selftest, "binding_selftest": binding, "unbounded_inductive_invariant": inductive, "blank_set_source_context": blank_ctx,
             "spec_behaviours_replayed": len(behaviours), "plan_steps_not_enabled_in_code": plan_skips,
             "observer": {"events": len(events), "tlc_states": obs_states, "breaches_total": len(viol), "other_property_tags_seen": others},
             "strict_conformance": {"traces": len(conf), "by_status": status,
